@@ -240,6 +240,14 @@ theorem malformed_rejected_dense_count {β : Type} (m : MeasEnc β) (n : Nat) (h
     simp [getValues, hi, measIndexGuard_spec, hne]
   simp [checkMeas, hk, hg]
 
+/-- `get_measurements(name)`: the vectors of the items whose name matches (all of them without a name), in
+order, each with its values and NaN pattern intact -/
+theorem get_measurements_spec {β κ : Type} (same : κ → κ → Bool) (cast32 : β → β) (items : List (κ × List (Option β))) (n : Nat)
+    (hn : ∀ it ∈ items, it.2.length = n) (name : Option κ) :
+    getMeasurements same (items.map (fun it => (it.1, encodeMeas cast32 it.2))) n name =
+      .ok ((items.filter (fun it => nameMatches same name it.1)).map (fun it => it.2.map (Option.map cast32))) :=
+  getMeasurements_spec same cast32 items n hn name
+
 /-! ## group lookup -/
 
 /-- **`get_annotation_groups` returns exactly the groups matching every given criterion, in order.** -/
@@ -269,6 +277,20 @@ theorem group_lookup_by_number (gs : List GroupInfo) (k : Int) (uid : Option Str
       | [g] => .ok g
       | _ => .error .value :=
   getGroup_by_number gs k uid
+
+/-- in an object whose groups are numbered 1, 2, … in order (the SOP class constructor refuses anything else)
+number `k` finds the `k`-th group, and any other number is refused -/
+theorem group_lookup_numbered (gs : List GroupInfo) (h : numberedFrom 0 gs) (uid : Option String) :
+    (∀ (k : Nat) (hk : k < gs.length), getGroup gs (some ((k : Int) + 1)) uid = .ok gs[k]) ∧
+    (∀ j : Int, j < 1 → getGroup gs (some j) uid = .error .value) := by
+  constructor
+  · intro k hk
+    rw [getGroup_by_number]
+    have := filter_number_unique gs 0 k hk h
+    simp only [Int.zero_add] at this
+    rw [this]
+  · intro j hj
+    rw [getGroup_by_number, filter_number_none gs 0 j h (by omega)]
 
 /-- lookup by UID -/
 theorem group_lookup_by_uid (gs : List GroupInfo) (u : String) :
